@@ -56,7 +56,7 @@ def model_check(pid, chk, quick):
             out.append(_tlc(chk, "MCPushQueue", "PushQueue.live.cfg", "PushQueue-liveness", env={"PQ_MUTANT": "none"}, timeout=3000))
     else:
         out.append(_tlc(chk, "MCRealTime", "RealTime.quick.cfg" if quick else "RealTime.thorough.cfg", "RealTime-exhaustive", timeout=3000))
-        out.append(_tlc(chk, "MCRealTime", "RealTime.noend.cfg", "RealTime-idle-run-exhaustive", timeout=3000))
+        out.append(_tlc(chk, "MCRealTime", "RealTime.noend.cfg" if quick else "RealTime.noendfull.cfg", "RealTime-idle-run-exhaustive", timeout=3000))
         if not quick:
             out.append(_tlc(chk, "MCRealTime", "RealTime.live.cfg", "RealTime-liveness", timeout=3000))
     return out
